@@ -50,6 +50,7 @@ type config struct {
 	ChainLen  int
 	StartAt   int  // blocks already stored when the pruner service starts
 	Cancel    bool // context cancelled at the k-th batch write of some prunes
+	Fault     bool // the k-th batch commit of some prunes fails with an injected write error
 	Readers   int
 	Store     string // database under the pruned node: memory | pebble (crash images are always replayed into memory)
 }
@@ -87,6 +88,12 @@ type world struct {
 	cancelFloors map[uint64]bool // floors at which a cancelled prune stopped
 	batchCommits atomic.Int64
 	cancelAt     atomic.Int64
+	failAt       atomic.Int64 // the failAt-th batch commit of the current event fails (injected write error)
+	failFired    atomic.Bool
+	// after a prune stopped by a failed batch commit the live node's in-memory floor stays at
+	// the prune target (<= bound) until the next restart: state refusals in [on-disk floor-1,
+	// refuseBelow-1) are the node reporting "pruned" for blocks its floor covers - counted, not judged
+	refuseBelow uint64
 	cancelFn     atomic.Pointer[func()]
 
 	gate   sync.RWMutex // readers hold R during a mini probe; chain mutations hold W
@@ -326,6 +333,9 @@ func (w *world) twinObservation() chain.Obs {
 func (w *world) check(bc *blockchain.Blockchain, store db.KeyValueReader, c judgeCtx) uint64 {
 	prefix := c.prefix()
 	c.CancelFloors = w.cancelFloors
+	if bc == w.bc.Load() && c.RefuseStateBelow < w.refuseBelow {
+		c.RefuseStateBelow = w.refuseBelow
+	}
 	F, err := pruner.OldestRetainedBlock(store)
 	if err != nil {
 		if !errors.Is(err, db.ErrKeyNotFound) || w.pos > 0 {
@@ -518,6 +528,7 @@ func makeConfig(r *lib.Run, idx int, rng *rand.Rand) config {
 		c.StartAt = rng.IntN(c.ChainLen/2 + 1)
 	}
 	c.Cancel = rng.IntN(5) < 2
+	c.Fault = !c.Cancel && rng.IntN(3) == 0
 	c.Store = "memory"
 	if idx%5 == 4 {
 		c.Store = "pebble"
@@ -570,6 +581,17 @@ func runScenario(r *lib.Run, idx int) {
 		inner = pdb
 	}
 	w.rec = chain.NewRecDB(inner)
+	w.rec.FailCommitIf = func(ws chain.WriteSet) bool {
+		if ws.Direct || !w.inEvent.Load() {
+			return false
+		}
+		if f := w.failAt.Load(); f > 0 && w.batchCommits.Load()+1 == f {
+			w.failAt.Store(0)
+			w.failFired.Store(true)
+			return true
+		}
+		return false
+	}
 	w.rec.OnCommit = func(_ int, ws chain.WriteSet) {
 		if ws.Direct || !w.inEvent.Load() {
 			return
@@ -610,6 +632,28 @@ func runScenario(r *lib.Run, idx int) {
 		if w.dead {
 			return
 		}
+		if w.failFired.Swap(false) {
+			// a batch commit of this prune failed (injected write error): the sweep stopped with the
+			// earlier batches durable. The live node - whose in-memory floor may already be at the
+			// prune target - must answer like a cancelled one: retained blocks intact, nothing below
+			// the on-disk floor answered with partial data; then the restarted node likewise.
+			w.r.Count("prunes_stopped_by_failed_batch_commit", 1)
+			w.refuseBelow = max(w.refuseBelow, w.bound)
+			w.r.Count(fmt.Sprintf("failed_batch_commit_after_%d_durable_batches", w.batchCommits.Load()), 1)
+			F := w.check(w.bc.Load(), w.rec, judgeCtx{Name: "commit-error-live", RefuseStateBelow: w.bound})
+			if F > lastF {
+				w.floorMoved++
+			}
+			lastF = F
+			if rng.IntN(2) == 0 {
+				if !w.restart() {
+					return
+				}
+				F = w.check(w.bc.Load(), w.rec, judgeCtx{Name: "restarted-after-commit-error"})
+				lastF = F
+			}
+			return
+		}
 		if ev.cancelled {
 			w.r.Count("prunes_cancelled_mid_way", 1)
 			// live node right after the cancelled prune, then the restarted node
@@ -647,6 +691,16 @@ func runScenario(r *lib.Run, idx int) {
 	}
 	armCancel := func() {
 		w.cancelAt.Store(0)
+		w.failAt.Store(0)
+		w.failFired.Store(false)
+		if cfg.Fault && rng.IntN(2) == 0 {
+			k := 1 + rng.IntN(2)
+			if cfg.Batch == 1 {
+				k = 1 + rng.IntN(7)
+			}
+			w.failAt.Store(int64(k))
+			return
+		}
 		if cfg.Cancel && rng.IntN(2) == 0 {
 			k := 1 + rng.IntN(2)
 			if cfg.Batch == 1 {
@@ -676,6 +730,7 @@ func runScenario(r *lib.Run, idx int) {
 		held := openHeld()
 		ev, ok := w.sendL1(n)
 		w.cancelAt.Store(0)
+		w.failAt.Store(0)
 		readHeld(held)
 		if !ok {
 			return
@@ -687,6 +742,7 @@ func runScenario(r *lib.Run, idx int) {
 		held := openHeld()
 		ev, ok := w.sendHead(n)
 		w.cancelAt.Store(0)
+		w.failAt.Store(0)
 		readHeld(held)
 		if !ok {
 			return
@@ -878,6 +934,7 @@ func (w *world) restart() bool {
 	if err == nil {
 		w.bc.Store(bc)
 		w.floor = floor
+		w.refuseBelow = 0
 	}
 	w.gate.Unlock()
 	if err != nil {
